@@ -46,6 +46,9 @@ def poison(inst, schema, types, rnd, log):
                 v = rnd.choice(STRS)
                 if t["len"] != -1 and (len(v) > t["len"] or rnd.random() < 0.4):
                     v = (v + "x" * t["len"])[:t["len"]]        # exactly at the limit
+                if t["len"] != -1 and k == "str" and rnd.random() < 0.15:
+                    # over the limit by white space only (padding is data: the model must refuse it, not write it)
+                    v = ("x" * t["len"]) + rnd.choice([" ", "   ", "\t", "\n", "\xa0", " \r\n"])
             elif k == "dt":
                 off, nm = rnd.choice(ZONES)
                 tz = datetime.timezone(datetime.timedelta(minutes=off), nm) if nm else __import__("types_common").NamelessTZ(off)
@@ -76,6 +79,25 @@ def poison(inst, schema, types, rnd, log):
             v = getattr(inst, a["a"])
             if isinstance(v, Aggregate):
                 poison(v, schema, types, rnd, log)
+    if schema[cls].get("elementlist") and len(inst) > 0 and rnd.random() < 0.6:
+        # repeated data elements put in place by item assignment / slice assignment / += (the list interface of the
+        # model): whatever gets in must be refused when written, never written unchecked
+        la = next((a for a in schema[cls]["attrs"] if a["k"] == "lelem"), None)
+        if la is not None:
+            t = types[int(la["ty"][1:])]
+            bad = {"str": "x" * (t["len"] + 5) if t["len"] != -1 else "a<b&c", "nag": "y" * 300, "oneof": "NOT_A_TOKEN", "int": "12x",
+                   "bool": "maybe", "dec": "1.2.3"}.get(t["k"], "zz zz")
+            how = rnd.randrange(3)
+            try:
+                if how == 0:
+                    inst[0] = bad
+                elif how == 1:
+                    inst[0:1] = [bad]
+                else:
+                    inst += [bad]
+                log.append(("lelem-" + t["k"], repr(bad)))
+            except Exception:
+                pass
     for m in inst:
         if isinstance(m, Aggregate):
             poison(m, schema, types, rnd, log)
